@@ -17,11 +17,13 @@ def hexs(b):
 
 
 def run(c):
+    built = kvlib.prebuild(c)
     ex = c.path("tb_ex.ndjson")
     cfg = c.pick("MC_Table_quick", "MC_Table_thorough")
     res, conf, ne, ns = kvlib.gen_edges(c, "MC_Table", cfg, ex, workers=c.pick(5, 6), timeout=c.pick(600, 3000))
     c.log("TLC: %d distinct states, %d transitions (%d printed, %d state lines, %.0fs)" % (res.distinct, res.generated, ne, ns, res.wall))
     c.guard("tlc_transitions", ne)
+    built()
     adapters = ["rec:mem", "rec:ldb", "rec:peb"]
     out = kvlib.kv_replay(c, "tb", adapters, ex, conf, walks=c.pick(40, 300), wlen=c.pick(60, 150), par=3,
                           clause="table-view")
